@@ -765,6 +765,16 @@ pub fn gen_c16(tier: &str, rng: &mut Rng, w: &mut dyn Write) {
     for n in ns {
         writeln!(w, "scopes_e2e {}", n).unwrap();
     }
+    // a known hole card sitting on the row / column of a cut: every cut of the small worker counts, sampled cuts of larger ones
+    for n in 1..=(if tier == "thorough" { 48u64 } else { 12 }) {
+        for v in 1..=2 * n {
+            writeln!(w, "scopes_e2e {} {}", n, v).unwrap();
+        }
+    }
+    for _ in 0..(if tier == "thorough" { 400 } else { 40 }) {
+        let n = 13 + rng.below(300);
+        writeln!(w, "scopes_e2e {} {}", n, 1 + rng.below(2 * n)).unwrap();
+    }
 }
 
 /// C11: inputs with 2-3 players and ranges of 1..60 combos (kept small enough for 24 + 3 re-enumerations)
